@@ -129,6 +129,23 @@ impl Run {
         }
     }
 
+    /// Like `distinct_outcome`, but de-duplicated per thread first (for hot paths): `sig` identifies the outcome.
+    pub fn distinct_outcome_sig(&self, sig: u64, describe: impl FnOnce() -> String) {
+        thread_local! {
+            static SEEN: std::cell::RefCell<std::collections::HashSet<u64>> = std::cell::RefCell::new(std::collections::HashSet::new());
+        }
+        let fresh = SEEN.with(|s| {
+            let mut s = s.borrow_mut();
+            if s.len() > 200_000 {
+                return false;
+            }
+            s.insert(sig)
+        });
+        if fresh {
+            self.distinct_outcome(describe());
+        }
+    }
+
     pub fn distinct_outcome(&self, s: String) {
         let mut d = self.distinct.lock().unwrap();
         if d.len() < 100_000 {
@@ -215,7 +232,7 @@ pub fn finish(run: &Run, level_states: u64, level_transitions: u64, rule: &str, 
         ("samples", J::Arr(if samples.is_empty() { vec![J::s("(no sample recorded)")] } else { samples })),
         ("evaluations", J::i(level_states.max(1))),
         ("distinct_nontrivial", J::i(distinct)),
-        ("rule", J::s(rule)),
+        ("rule", J::s(format!("{rule} || distinct_nontrivial = number of distinct OUTCOMES observed by this run (measured, capped at 100 000): position sweeps: (number of legal moves, live rule features) signatures; searches: (best move, score, depth, info lines); tables: attack sets / canonical table states; clocks: (soft, hard) pairs; command loop: resulting positions / schedule-count classes / command lines. One outcome from many executions would mean nothing was exercised."))),
         ("exhaustive", J::Bool(exhaustive && all_completed)),
         (
             "families",
